@@ -266,62 +266,16 @@ class MultiCrossBlockRepeat(Block):
         :class:`Exclude` constraint may prevent multiple crossings, depending
         on the derivation function used.
         """
-        from sweetpea._internal.constraint import Exclude
-
-        excluded_crossings = cast(Set[Tuple[Level, ...]], set())
-
-        # Generate the full crossing as a list of tuples.
+        # Generate the full crossing as a list of tuples, and drop the combinations that no
+        # single trial can show: ones that contain an excluded level, ones that are impossible
+        # based on a derived level's definition, and ones that force an excluded derived level.
+        # The crossing constraint and `RandomGen` use the same test for each combination.
         levels_lists = [list(f.levels) for f in crossing]
         all_crossings = list(product(*levels_lists))
-
-        # Get the exclude constraints.
-        exclusions = list(filter(lambda c: isinstance(c, Exclude), self.constraints))
-
-        # Check for impossible combinations
+        excluded_crossings = cast(Set[Tuple[Level, ...]], set())
         for c in all_crossings:
-            for l in c:
-                if isinstance(l, DerivedLevel):
-                    f = l.factor
-                    if isinstance(f, DerivedFactor) and not f.has_complex_window:
-                        argss = []
-                        for af in l.window.factors:
-                            if af in crossing:
-                                # Find level in `c`:
-                                for al in c:
-                                    if al in af.levels:
-                                        argss.append([al.name])
-                                        break
-                            else:
-                                # We'll need to try all possible levels in `af`
-                                argss.append([ll.name for ll in af.levels])
-                        all_possible_argss = list(product(*argss))
-                        if not any([l.window.predicate(*args) for args in all_possible_argss]):
-                            excluded_crossings.add(tuple(c))
-
-        # Check for excluded combinations
-        for constraint in exclusions:
-            # Retrieve the derivation function that defines this exclusion.
-            excluded_level = constraint.level
-
-            if excluded_level.factor in crossing:
-                for c in all_crossings:
-                    if excluded_level in c:
-                        excluded_crossings.add(tuple(c))
-
-            if isinstance(excluded_level, SimpleLevel):
-                # nothing more to do
-                pass
-            elif constraint.factor.has_complex_window:
-                # We are not obliged to filter impossible cases for a complex level
-                continue
-            elif excluded_level.factor not in crossing:
-                # For each crossing, ensure that at least one combination is possible with the design-only
-                # factor, keeping in mind the exclude contraints.
-                for c in all_crossings:
-                    if all(map(lambda d: self.__excluded_derived(excluded_level, c + d),
-                               list(product(*[list(f.levels) for f in filter(lambda f: f not in crossing,
-                                                                             self.act_design)])))):
-                        excluded_crossings.add(tuple(c))
+            if self.is_excluded_or_inconsistent_combination({l.factor: l for l in c}):
+                excluded_crossings.add(tuple(c))
 
         if len(excluded_crossings) != 0:
             if self.require_complete_crossing:
@@ -335,23 +289,6 @@ class MultiCrossBlockRepeat(Block):
             self.errors.add(er)
 
         return sum([combination_weight(c) for c in excluded_crossings])
-
-    def __excluded_derived(self, excluded_level, c):
-        """Given the complete crossing and an exclude constraint, returns true
-        if that combination results in the exclude level or if the combination
-        is not possible based on the level's definition.
-        """
-        ret = []
-
-        cx = {l.factor: l.name for l in c}
-
-        for f in filter(lambda f: isinstance(f, DerivedFactor), excluded_level.window.factors):
-            if self.__excluded_derived(cx[f], c):
-                return True
-
-        # Invoking the predicate this way is only ok because we only do this for WithinTrial windows.
-        # With complex windows, it wouldn't work due to the list aspect for each argument.
-        return excluded_level.window.predicate(*[cx[f] for f in excluded_level.window.factors])
 
     def __select_crossing(self, crossing: Optional[List[Factor]]) -> List[Factor]:
         if not crossing:
